@@ -139,7 +139,9 @@ struct C05 : Harness {
     }
 };
 
+#ifndef SKV_NO_MAIN
 int main(int argc, char **argv) {
     C05 h;
     return skv_main(argc, argv, h);
 }
+#endif
